@@ -14,7 +14,8 @@ DECIDES = ('C20-ORDER: for each entry of the order table (binary and boolean ope
            'LET-ORDER: every function of Optimize.py that wraps temporaries (LetRefNode/ResultRefNode) with EvalWithTempExprNode/LetNode returns trees whose operand evaluation order '
            '(outermost temporary first, then the body; operands of constructed nodes in the order of C20-ORDER) keeps operands of one source list in index order and sibling '
            'operands in table order, unless the operand is established to be side-effect free by is_simple()/try_is_simple()/is_literal/is_name on that path; runs of temporaries are '
-           'not wrapped back to front.')
+           'not wrapped back to front, and every temporary that carries an operand and is referenced by the returned tree is bound by a let (otherwise the operand is never evaluated). '
+           'C20-DROP: a rewrite in Optimize.py empties the operand list of an existing node only under a test that establishes the operands as side-effect free.')
 NOT_DECIDED = ('temporaries introduced by coercions and by analyse_types (coerce_to_temp etc.); the order inside helper C functions; short-circuit behaviour beyond the order of the two '
                'operands; rewrites that do not use the let constructs (e.g. argument re-packing in call optimisations, ConstantFolding dropping `[f()] * 0` operands - observed: '
                'f is not called); whether a value established as is_simple() really is side-effect free; generator/closure evaluation order; '
@@ -23,8 +24,56 @@ ASSUMPTIONS = ['a node constructor call evaluates exactly the sub-trees handed t
                'argument order', 'attributes that are not child attributes of any node class (pos, type, entry, constant_result ...) are not sub-trees',
                'the handlers receive their operand lists in source order (args[i] before args[j] for i < j)']
 EXEMPT = {}
-MUTATIONS = []
-SILENT_EDITS = []
+# Genuine defects on the unchanged tree that these rules report (each confirmed by compiling a module with PYTHONPATH=/repo in a temp dir; v(name) logs its name):
+#  1. LET-ORDER _transform_enumerate_iteration (DESIGN finding 21): for i, x in enumerate(v('a'), v('b')) logs ['b', 'a'].
+#  2. LET-ORDER FlattenInListTransform.visit_PrimaryCmpNode (finding 22): v('x') in (v('a'), v('b')) logs ['a', 'b', 'x'].
+#  3. LET-ORDER _optimise_min_max (finding 23; both spellings min(a, b, c) and min((a, b, c))): min(v('a'), v('b'), v('c')) logs ['b', 'c', 'a'].
+#  4. LET-ORDER _transform_range_iteration (new): cdef int i; for i in range(v('a'), v('b')) logs ['b', 'a'] (the stop bound's LetNode wraps the loop that evaluates the start bound).
+#  5. LET-ORDER _handle_simple_function_isinstance (new): isinstance(v('a'), (v('b'),)) logs ['b', 'a'] (a single non-builtin type in a tuple gets a temporary, the object does not).
+#  6. LET-ORDER _handle_simple_method_list_extend (new): (<list>v('l')).extend([v('a')]) logs ['a', 'l'] (one item: the item gets a temporary, the list expression does not).
+#  7. C20-ORDER InPlaceAssignmentNode.generate_execution_code (new): def f(int[:] buf): buf[v('i')] += v('r') logs ['r', 'i'] (CPython evaluates the target's subscript first).
+#  8. C20-DROP ConstantFolding._calculate_constant_seq (new): [v('a')] * 0 and (v('a'), v('b')) * -1 log [] - the operands are deleted without being evaluated.
+
+# Single-edit variants tried on a scratch copy: (file, edit, rule/construct that reported it).
+MUTATIONS = [
+    ('Cython/Compiler/ExprNodes.py', "BinopNode: subexprs = ['operand2', 'operand1']", 'C20-ORDER ExprNodes.BinopNode/AddNode/...:eval:operand1<eval:operand2'),
+    ('Cython/Compiler/ExprNodes.py', "IndexNode: subexprs = ['index', 'base']", 'C20-ORDER ExprNodes.IndexNode[.generate_assignment_code/.generate_deletion_code]:eval:base<eval:index'),
+    ('Cython/Compiler/ExprNodes.py', "SliceNode: subexprs = ['stop', 'start', 'step']", 'C20-ORDER ExprNodes.SliceNode:eval:start<eval:stop'),
+    ('Cython/Compiler/ExprNodes.py', "GeneralCallNode: subexprs = ['positional_args', 'function', 'keyword_args']", 'C20-ORDER ExprNodes.GeneralCallNode:eval:function<eval:positional_args'),
+    ('Cython/Compiler/ExprNodes.py', "FormattedValueNode: subexprs = ['format_spec', 'value']", 'C20-ORDER ExprNodes.FormattedValueNode:eval:value<eval:format_spec'),
+    ('Cython/Compiler/ExprNodes.py', 'DictItemNode.generate_evaluation_code: value before key', 'C20-ORDER ExprNodes.DictItemNode:eval:key<eval:value'),
+    ('Cython/Compiler/ExprNodes.py', 'CondExprNode.generate_evaluation_code: eval_and_get(true_val) moved before the condition', 'C20-ORDER ExprNodes.CondExprNode:eval:condition<eval:true_val'),
+    ('Cython/Compiler/ExprNodes.py', 'PrimaryCmpNode.generate_evaluation_code: operand2 before operand1', 'C20-ORDER ExprNodes.PrimaryCmpNode:eval:operand1<eval:operand2'),
+    ('Cython/Compiler/ExprNodes.py', 'SimpleCallNode.generate_evaluation_code: tuple (self.self, self.coerced_self, arg, function)', 'C20-ORDER ExprNodes.SimpleCallNode:eval:function<eval:arg_tuple'),
+    ('Cython/Compiler/ExprNodes.py', 'PyMethodCallNode.generate_evaluation_code: keyword values evaluated before the positional arguments', 'C20-ORDER ExprNodes.PyMethodCallNode:eval:arg_tuple<eval:kwdict|...'),
+    ('Cython/Compiler/UtilNodes.py', 'EvalWithTempExprNode.generate_evaluation_code: subexpression before setup_temp_expr', 'C20-ORDER UtilNodes.EvalWithTempExprNode:eval:temp_expression<eval:subexpression'),
+    ('Cython/Compiler/Nodes.py', 'AssignmentNode.generate_execution_code: generate_assignment_code before generate_rhs_evaluation_code', 'C20-ORDER Nodes.SingleAssignmentNode:eval:rhs<assign:lhs (+ Cascaded)'),
+    ('Cython/Compiler/Nodes.py', 'ParallelAssignmentNode.generate_execution_code: one loop doing rhs and assignment per constituent', 'C20-ORDER Nodes.ParallelAssignmentNode:rhs:stats<assign:stats'),
+    ('Cython/Compiler/Nodes.py', 'CascadedAssignmentNode.generate_assignment_code: extra self.rhs.generate_evaluation_code(code)', 'C20-ONCE Nodes.CascadedAssignmentNode.generate_execution_code:eval:rhs'),
+    ('Cython/Compiler/ExprNodes.py', 'CondExprNode.generate_evaluation_code: condition evaluated twice', 'C20-ONCE ExprNodes.CondExprNode.generate_evaluation_code:eval:condition'),
+    ('Cython/Compiler/Optimize.py', '_handle_simple_function_set: `for temp in temps[::-1]` -> `for temp in temps`', 'LET-ORDER ..._handle_simple_function_set:pos_args[0].args[i]-reversed'),
+    ('Cython/Compiler/Optimize.py', '_handle_simple_function_set: iterate pos_args[0].args[::-1]', 'LET-ORDER ..._handle_simple_function_set:pos_args[0].args[::-1][i]-reversed'),
+    ('Cython/Compiler/Optimize.py', '_handle_simple_method_list_extend: `for temp in temps` -> `temps[::-1]`', 'LET-ORDER ..._list_extend:args[1].args[-1]-before-args[1].args[-2::-1] + ...-reversed'),
+    ('Cython/Compiler/Optimize.py', '_handle_simple_function_isinstance: `for temp in temps[::-1]` -> `for temp in temps`', 'MISSED: the construct pos_args[1]-before-pos_args[0] already fires on this function and the type list comes from a helper (unknown order)'),
+    ('Cython/Compiler/Optimize.py', '_optimise_min_max: temporary for args[0] created but wrapped innermost / never wrapped', 'LET-ORDER ..._optimise_min_max:args[1:]-before-args[0] / args[0]-never-evaluated'),
+    ('Cython/Compiler/Optimize.py', "visit_MulNode: `node.operand1.args = []` when the factor is 0", 'C20-DROP Optimize.ConstantFolding.visit_MulNode:drop:node.operand1.args'),
+    # repairs make the corresponding construct go silent (and nothing else appear)
+    ('Cython/Compiler/Nodes.py', 'FIX InPlaceAssignmentNode: lhs.generate_subexpr_evaluation_code before rhs.generate_evaluation_code', 'C20-ORDER InPlaceAssignmentNode silent'),
+    ('Cython/Compiler/Optimize.py', 'FIX FlattenInListTransform: EvalWithTempExprNode(lhs, ...) applied last (outermost)', 'LET-ORDER visit_PrimaryCmpNode silent'),
+    ('Cython/Compiler/Optimize.py', 'FIX _optimise_min_max: first_ref = ResultRefNode(args[0]) ... return EvalWithTempExprNode(first_ref, last_result)', 'LET-ORDER _optimise_min_max silent'),
+    ('Cython/Compiler/Optimize.py', 'FIX enumerate: when start is not simple, LetRefNode for the iterable wrapped outside the LetNode of start', 'LET-ORDER _transform_enumerate_iteration silent'),
+    ('Cython/Compiler/Optimize.py', 'FIX range: LetRefNode for a non-simple bound1 (not reversed) wrapped outside the LetNode of bound2', 'LET-ORDER _transform_range_iteration silent'),
+    ('Cython/Compiler/Optimize.py', 'FIX _calculate_constant_seq: `... <= 0 and all(arg.is_literal for arg in sequence_node.args)`', 'C20-DROP silent'),
+]
+SILENT_EDITS = [   # behaviour-preserving, no new violation
+    "DictItemNode: subexprs = ['value', 'key'] (its explicit generate_evaluation_code decides the order)",
+    "BinopNode: subexprs as a tuple",
+    'SimpleCallNode.generate_evaluation_code: list `operands`, loop variable renamed, `if operand is None: continue`',
+    'CondExprNode.generate_evaluation_code: local alias for true_val, keyword argument for eval_and_get',
+    'CascadedAssignmentNode.generate_assignment_code: loop variables renamed',
+    'FlattenInListTransform: `for tmp_node in reversed(temps)`; `temps = list()`',
+    '_handle_simple_function_set: `new_args`/`item` names, early `continue` for simple items',
+]
 
 
 def run(ctx):
